@@ -400,6 +400,60 @@ func workloads(c *core.Ctx) []sx.Workload {
 	return out
 }
 
+// closeDuringSafeBatches: Close arrives at the scorch index (index.Index API,
+// below bleve's own lock) while safe batches wait for their persistence and the
+// persister is inside persistSnapshot. The clean Close is then followed by a
+// reopen: every batch whose call returned without an error must be there.
+func closeDuringSafeBatches(c *core.Ctx, seed int64) (*runResult, error) {
+	base := c.TempDir("c03close")
+	defer os.RemoveAll(base)
+	dir := filepath.Join(base, "idx")
+	wl := sx.Workload{Name: "close-during-safe-batches", Writers: 2, Safe: true, KVConfig: map[string]interface{}{}}
+	r, err := sx.Start(dir, wl, seed, 0)
+	if err != nil {
+		return nil, err
+	}
+	res := &runResult{Spec: runSpec{WL: wl, Variant: "none"}}
+	if _, err := r.Submit(sx.BatchSpec{W: 1, Puts: []string{"a"}, Dels: []string{}}); err != nil {
+		return nil, err
+	}
+	r.Quiesce(20 * time.Second)
+	// park the persister at the start of its next round until Close has begun
+	point := []string{"persist.begin", "persist.filesWritten", "persist.beforeIntro"}[int(seed)%3]
+	r.SetHolds([]sx.HoldRule{{Point: point, Until: "CloseBegin", Count: 1, Timeout: 10 * time.Second, Prob: 1, Once: true}})
+	// ONE waiting batch: a second one introduced after the persister took its snapshot
+	// would wait for ever (its channel stays in rootPersisted when the persister exits) -
+	// a scorch-level lead outside this property, see DESIGN 11.3
+	done := make(chan error, 1)
+	go func() {
+		_, err := r.SubmitDirect(sx.BatchSpec{W: 1, Puts: []string{"b", "c"}, Dels: []string{"a"}})
+		done <- err
+	}()
+	if !r.WaitParked(point, 1, 10*time.Second) {
+		r.SetHolds(nil)
+		_ = r.Close()
+		return nil, fmt.Errorf("close-during-safe-batches: the persister did not reach %s", point)
+	}
+	time.Sleep(2 * time.Millisecond)
+	cerr := r.Sc.Close() // below bleve's indexImpl: not serialised against the waiting batches
+	select {
+	case <-done:
+	case <-time.After(30 * time.Second):
+		return nil, fmt.Errorf("close-during-safe-batches: the safe batch did not return after Close")
+	}
+	if cerr != nil {
+		res.Err = "close: " + cerr.Error()
+	}
+	res.Records = sx.CrashRecords(r.Rec.Events())
+	rec, _, idx := sx.RecoveredRecord(dir, "close", nil)
+	if idx != nil {
+		_ = idx.Close()
+	}
+	res.Records = append(res.Records, rec)
+	res.CrashedAt = "close@" + point
+	return res, nil
+}
+
 var variants = []string{"none", "truncate", "garbage", "delete"}
 
 func run(c *core.Ctx) error {
@@ -458,6 +512,20 @@ func run(c *core.Ctx) error {
 		specs = append(specs, specs0...)
 		// the clean run itself is a case (clean Close, then reopen)
 		report(c, []*runResult{dry})
+	}
+	// Close below bleve's lock while safe batches wait
+	{
+		var rs []*runResult
+		for k := 0; k < c.Pick(3, 9); k++ {
+			r, err := closeDuringSafeBatches(c, c.Seed*7+int64(k))
+			if err != nil {
+				return err
+			}
+			c.Eval(1)
+			c.Distinct(fmt.Sprintf("close-during-safe-batches|%s", r.CrashedAt))
+			rs = append(rs, r)
+		}
+		report(c, rs)
 	}
 	c.Logf("%d crash runs", len(specs))
 	results := make([]*runResult, len(specs))
